@@ -37,10 +37,11 @@ VARIANTS = {
         'build.bfg': "project('p', version='1.0')\n"
                      "sub = submodule('lib')\n"
                      "executable('prog', find_files('src/*.c'), libs=[sub['lib']])\n"
-                     "command('show', cmd=['rec', argv.name])\n"
+                     "command('show', cmd=['rec', argv.name, argv.subname])\n"
                      "pkg_config('p', version='1.0')\n",
         'lib/build.bfg': "export(lib=static_library('l', find_files('*.c')))\n",
-        'options.bfg': "argument('name', default='dflt')\n",
+        'options.bfg': "argument('name', default='dflt')\nsubmodule('config')\n",
+        'config/options.bfg': "argument('subname', default='sub0')\n",
     },
     'toolchain-file': {
         'build.bfg': "srcs = find_files('src/*.c')\nexecutable('prog', srcs)\n",
@@ -140,6 +141,15 @@ def op_edit_submodule(src, n):
         f.write("executable('subprog%d', ['l1.c'])\n" % n)
 
 
+def op_edit_nested_options(src, n):
+    """an options script that options.bfg itself includes"""
+    p = os.path.join(src, 'config', 'options.bfg')
+    if not os.path.exists(p):
+        return 'noop'
+    with open(p, 'w') as f:
+        f.write("argument('subname', default='sub-changed%d')\n" % n)
+
+
 def op_drop_find(src, n):
     """the script stops using find_files and starts executing a script that was no input before"""
     w(src, 'aux/build.bfg', "export(n=%d)\n" % n)
@@ -207,7 +217,7 @@ OPS = [('add-matching', op_add_match), ('add-nonmatching', op_add_nomatch), ('ad
        ('drop-find_files', op_drop_find), ('edit-new-submodule', op_edit_new_submodule),
        ('add-empty-dir', op_add_empty_dir), ('fill-new-dirs', op_fill_new_dirs),
        ('toolchain-drop-line', op_toolchain_drop), ('toolchain-edit', op_toolchain_edit),
-       ('edit-submodule-script', op_edit_submodule)]
+       ('edit-submodule-script', op_edit_submodule), ('edit-nested-options', op_edit_nested_options)]
 OPD = dict(OPS)
 
 
